@@ -37,6 +37,11 @@ mod c19;
 #[cfg(feature = "c20")]
 mod c20;
 
+// C20: the instrumented allocator observes every dealloc / realloc while tracking is on (thread-local flag)
+#[cfg(feature = "c20")]
+#[global_allocator]
+static C20_ALLOC: c20::TrackingAlloc = c20::TrackingAlloc;
+
 use rng::Rng;
 use serde_json::{json, Value};
 use std::io::{BufRead, Write};
